@@ -62,6 +62,21 @@ Theorem C03_full_partial : C03_full_statement.
 Proof. exact (conj C03_compiles_partial C03_pipeline_partial). Qed.
 Print Assumptions C03_full_partial.
 
+(* use of C02: `isteps` runs a phase in program order; for the phases of a supported builder program
+   every order that respects the recorded dependencies (the order the interpreter's controller
+   picks, C04) gives the same events, variables and stop reason, from any state a step can start in *)
+Theorem C03_step_any_schedule : forall F g bl P ph s sched,
+  build_model bl = Some P -> supported is_state_var P = true -> In ph P ->
+  (forall y, persistent_var y = false -> s y = None) ->
+  Permutation.Permutation (seq 0 (List.length (fp_stmts ph))) sched ->
+  BuilderProofs.respects (fp_stmts ph) sched ->
+  req (run_ids F g (fp_stmts ph) sched (RRun s nil)) (run_list F g (fp_stmts ph) (RRun s nil)).
+Proof.
+  exact (fun F g bl P ph s sched =>
+           step_any_schedule F g is_state_var persistent_var exec_state_token bl P ph s sched st_split).
+Qed.
+Print Assumptions C03_step_any_schedule.
+
 (* the three slots written by emit_inst_YieldState are the model's *)
 Theorem C03_ret_slots : c03_ret_prefixes = ret_prefixes.
 Proof. exact eq_refl. Qed.
